@@ -33,10 +33,10 @@ def run(ck):
     d.mkdir(parents=True, exist_ok=True)
     dist = {"configs_per_spec": 0, "specs": 0, "rows": []}
     specs = []
-    for i in range(ck.n(1, 6)):
+    for i in range(ck.n(1, 3)):
         spec, _ = R.gen_search_spec(rng, max_space=4000)
         specs.append(("mini", {"arch": S.arch_yaml(spec), "workload": G.workload_yaml(spec)}))
-    for i in range(ck.n(1, 6)):
+    for i in range(ck.n(1, 3)):
         specs.append(("chain", {"jinja": {"N_EINSUMS": 2 + i % 2, "M": rng.choice([4, 8]), "KN": rng.choice([4, 8]), "GlobalBufferSize": rng.choice([128, 512, 4096])}}))
     for kind, base in specs:
         for metrics in (["ENERGY", "LATENCY"],) if ck.quick() else (["ENERGY"], ["ENERGY", "LATENCY"]):
